@@ -35,6 +35,15 @@ let handle (line : string) : string =
           (fbits tq)
       in
       Printf.sprintf "%s %s %s" (hexf t) (triple a) (triple b)
+  | "fit3" :: n :: rest ->
+      let rec pts = function
+        | r :: phi :: z :: t -> mk_spoint (fbits r) (fbits phi) (fbits z) :: pts t
+        | _ -> []
+      in
+      let l = pts rest in
+      if List.length l <> int_of_string n then "bad-case"
+      else (
+        match n_to_int (fit3_outcome glibc l) with 0 -> "noinit" | 1 -> "track" | _ -> "panic")
   | _ -> "unknown-case"
 
 let () = main handle
